@@ -259,7 +259,7 @@ func genDiffStr(t *rapid.T, label string) *Val {
 }
 
 func genDiffOp(t *rapid.T, shadow map[string]kstate) Op {
-	if rapid.IntRange(0, 11).Draw(t, "sleep?") == 0 {
+	if rapid.IntRange(0, 8).Draw(t, "sleep?") == 0 {
 		return Op{Kind: "sleep"}
 	}
 	k := rapid.SampledFrom(diffKeys).Draw(t, "key")
